@@ -119,6 +119,56 @@ pub fn worker_bin(shard: usize, _nshards: usize, seed: u64, tier: &str, out: &mu
             }
             out.end();
         }
+        // a long accepted record followed by many searches without a new `position`: whatever
+        // the engine keeps between searches must not grow past the capacity budget
+        for (l, gos, go) in [(398usize, 150usize, "go depth 1"), (398, 150, "go movetime 1"), (396, 150, "go depth 2"), (300, 260, "go depth 1")] {
+            if (l + gos) % 2 != shard % 2 && tier != "thorough" {
+                continue;
+            }
+            let moves: Vec<String> = (0..l).map(|i| shuffle[i % 4].to_string()).collect();
+            let case = json!({"kind":"go-chain","plies":l,"gos":gos,"go":go});
+            out.begin(&case);
+            let Ok(mut s) = Session::spawn(&engine_bin(true), &[], &[], None) else {
+                out.inconclusive("cannot start the checked binary");
+                return;
+            };
+            s.keep_log = false;
+            let mut text = format!("position startpos moves {}\n", moves.join(" "));
+            for _ in 0..gos {
+                text.push_str(go);
+                text.push_str("\nwait\n");
+            }
+            text.push_str("show\nisready\n");
+            s.send_bulk(&text);
+            let mut bestmoves = 0u64;
+            let alive = loop {
+                match s.next(Duration::from_secs(60)) {
+                    Some(ev) if ev.kind == Kind::Out => {
+                        if ev.text == "readyok" {
+                            break true;
+                        }
+                        if ev.text.starts_with("bestmove") {
+                            bestmoves += 1;
+                        }
+                    }
+                    Some(ev) if ev.kind == Kind::OutEof => break false,
+                    Some(_) => {}
+                    None => break false,
+                }
+            };
+            out.add("go_chain_runs", 1);
+            out.add("go_chain_bestmoves", bestmoves);
+            if !alive {
+                let st = s.wait_exit(Duration::from_secs(3));
+                out.viol("C15", &format!("C15|go-chain|{l}|{go}"),
+                    &format!("{l}-ply record, then {gos} x `{go}` + `wait` without a new position on the {b} build: engine died or fell silent after {bestmoves} bestmoves ({st:?}): {}",
+                        s.stderr_text().lines().filter(|x| !x.trim().is_empty()).take(4).collect::<Vec<_>>().join(" / ")), case);
+            } else {
+                s.send("quit");
+                let _ = s.wait_exit(Duration::from_secs(5));
+            }
+            out.end();
+        }
         return;
     }
     if shard == 8 || shard == 9 {
